@@ -10,6 +10,7 @@
    lookup answers exactly what the cache-less lookup answers, in both lookup modes.
    Not proved here (covered by the configuration sweep of tools/c14.py): that the storage backends
    implement the file semantics of Storage.v, moka internals, the OS file system. *)
+From HC Require Import DiskFile DiskFileFacts.
 From HC Require Import SoundCoreLib SoundCore ReplicaDisk1 ReplicaMiscA.
 From HC Require Import SoundCoreLib SoundCore ReplicaCor ReplicaCorA ReplicaCorC.
 From HC Require Import Core Refine ClearRefine Unified1 Unified3 CacheModel CacheOps.
@@ -267,6 +268,44 @@ Theorem C14_cache_transparent_after_crash_and_reopen :
          Sound.some_collision cr \/ forged_signature cr bs pk.
 Proof. exact replica_cache_transparent_crash_reopen. Qed.
 
+Theorem C14_disk_backend_refines_flat_file :
+  forall (cfg : dcfg) (ops : list dop),
+         ops_tight file_empty ops = true ->
+         forallb (dop_read_fits cfg) ops = true ->
+         run_rad cfg ops = (fst (run_dfile ops), snd (run_dfile ops), snd (run_dfile ops)).
+Proof. exact rad_refines_file. Qed.
+
+Theorem C14_disk_backend_session_refines_flat_file :
+  forall (cfg : dcfg) (ops : list op),
+         forallb (op_read_fits cfg) ops = true ->
+         let r := run_rad cfg (map Dop ops) in
+         fst (fst r) = fst (run_file ops) /\
+         snd (fst r) = snd (run_file ops) /\ (exists z : N, snd (run_file ops) = snd r ++ zeros_n z).
+Proof. exact rad_session_refines_file. Qed.
+
+Theorem C14_disk_backend_agrees_with_memory_backend :
+  forall (cfg : dcfg) (ps : N) (ops : list op),
+         0 < ps -> forallb (op_read_fits cfg) ops = true -> fst (run_rad cfg (map Dop ops)) = run_ram ps ops.
+Proof. exact rad_session_agrees_with_ram. Qed.
+
+Theorem C14_disk_backend_length_invariant :
+  forall (cfg : dcfg) (d : rad) (o : op),
+         rad_tight d -> rad_tight (fst (rad_step cfg d o)) <-> op_tight (rad_length d) o = true.
+Proof. exact step_tight_iff. Qed.
+
+Theorem C14_disk_file_is_content_up_to_zero_tail :
+  forall (d : rad) (f : file),
+         drefines d f -> f_content f = rad_raw d ++ zeros_n (rad_length d - os_size (rad_file d)).
+Proof. exact raw_is_prefix. Qed.
+
+Theorem C14_disk_del_variants_agree :
+  forall (cap : option N) (ops : list dop),
+         ops_tight file_empty ops = true ->
+         forallb (dop_read_fits {| dc_sparse := true; dc_read_cap := cap |}) ops = true ->
+         run_rad {| dc_sparse := true; dc_read_cap := cap |} ops =
+         run_rad {| dc_sparse := false; dc_read_cap := cap |} ops.
+Proof. exact del_variants_agree. Qed.
+
 Print Assumptions C14_cache_transparent.
 Print Assumptions C14_cache_starts_valid.
 Print Assumptions C14_cache_insert_keeps_valid.
@@ -297,3 +336,9 @@ Print Assumptions C14_cache_transparent_for_replica_histories_with_reopen.
 Print Assumptions C14_cache_transparent_for_replica_histories_incl_reopen.
 Print Assumptions C14_replica_reopen_is_cache_safe.
 Print Assumptions C14_cache_transparent_after_crash_and_reopen.
+Print Assumptions C14_disk_backend_refines_flat_file.
+Print Assumptions C14_disk_backend_session_refines_flat_file.
+Print Assumptions C14_disk_backend_agrees_with_memory_backend.
+Print Assumptions C14_disk_backend_length_invariant.
+Print Assumptions C14_disk_file_is_content_up_to_zero_tail.
+Print Assumptions C14_disk_del_variants_agree.
